@@ -5,7 +5,7 @@
     a pass over its markers lets a label exceed its predecessor by at most one and keeps one marker for every remaining
     block.  [old_haplobin] / [old_calc_haplomat] (Proofs/C18_Haplo.v) are the FORMER code, kept as regression witness. *)
 From Coq Require Import PrimFloat Sorted.
-From PV Require Import Lib.Common Model.C18_Haplo Proofs.C18_Haplo Proofs.C18_Float.
+From PV Require Import Lib.Common Model.C18_Haplo Proofs.C18_Haplo Proofs.C18_Float Gen.C18_Kernel Proofs.C18_Kernel Proofs.C18_Affine.
 Local Open Scope nat_scope.
 
 (** Greedy apportionment (nhaploblk_chrom): one count per chromosome, each >= 1, adding up to exactly the requested
@@ -267,6 +267,147 @@ Theorem C18_witness_repaired :
     /\ exists w, opv_latent 3 1 hm [0; 1] = [Some w] /\ (w == -15)%Q.
 Proof. exact witness_repaired. Qed.
 Print Assumptions C18_witness_repaired.
+
+(** ** The kernel expressions of the CURRENT source.  Gen/C18_Kernel.v is regenerated from haplo.py and the three problem modules
+    on every run (harness/translate/c18_kernel.py): guards, index expressions, the operation order of the ideal counts, argmin, the
+    linspace arguments, the closed bin test, the repair-pass bound, the run test, the slices of the block value, the shape, the cross
+    map branches, the scaling by the ploidy, the latent functions.  The [g_*] functions (Proofs/C18_Kernel.v) are the code composed
+    from those generated definitions; they ARE the hand model: *)
+Theorem C18_kernel_is_model :
+  (forall (T : Type) (O : ops T) nhap gp stix spix, g_nhaploblk_chrom O nhap gp stix spix = nhaploblk_chrom O nhap gp stix spix) /\
+  (forall (T : Type) (O : ops T) nblk gp stix spix, g_haplobin O nblk gp stix spix = haplobin O nblk gp stix spix) /\
+  (forall lab, g_haplobin_bounds lab = haplobin_bounds lab) /\
+  (forall (T : Type) (O : ops T), g_haplomat O = calc_haplomat O /\ g_ohv_calc_haplomat O = calc_haplomat O
+                                  /\ g_opv_calc_haplomat O = calc_haplomat O /\ g_gb_calc_haplomat O = calc_haplomat O) /\
+  (forall ntaxa nparent uniq, k_xmap ntaxa nparent uniq = calc_xmap ntaxa nparent uniq) /\
+  (forall ploidy nb nt cs, g_ohv_row ploidy nb nt cs = ohv_row ploidy nb nt cs) /\
+  (forall nb nt hm ntaxa nparent uniq,
+     g_ohv_problem nb nt hm ntaxa nparent uniq = calc_ohvmat (Z.of_nat (length hm)) nb nt hm (calc_xmap ntaxa nparent uniq)) /\
+  (forall hm, k_ohv_Real_ploidy hm = k_ohv_Subset_ploidy hm /\ k_ohv_Integer_ploidy hm = k_ohv_Subset_ploidy hm
+              /\ k_ohv_Binary_ploidy hm = k_ohv_Subset_ploidy hm /\ k_opv_ploidy hm = Z.of_nat (length hm) /\ k_gb_ploidy hm = Z.of_nat (length hm)).
+Proof.
+  exact (conj (@g_nhaploblk_chrom_model) (conj (@g_haplobin_model) (conj g_haplobin_bounds_model
+        (conj (fun T O => conj (g_haplomat_model O) (conj (g_ohv_calc_haplomat_model O) (conj (g_opv_calc_haplomat_model O) (g_gb_calc_haplomat_model O))))
+        (conj k_xmap_model (conj g_ohv_row_model (conj g_ohv_problem_model k_ohv_ploidy_all))))))).
+Qed.
+Print Assumptions C18_kernel_is_model.
+
+(** the apportionment law about the generated code itself *)
+Theorem C18_kernel_apportion_total : forall (T : Type) (O : ops T) (nhap : nat) (gp : list T) (stix spix : list nat),
+  length spix = length stix -> 1 <= length stix <= nhap ->
+  exists nblk, g_nhaploblk_chrom O nhap gp stix spix = Ok nblk /\ length nblk = length stix
+               /\ Forall (fun x => 1 <= x) nblk /\ list_sum nblk = nhap.
+Proof. exact @kernel_apportion_total. Qed.
+Print Assumptions C18_kernel_apportion_total.
+
+(** cover-once / within-chromosome / monotone / all-blocks-used about the generated haplobin (bins closed at both ends, later bin
+    wins, the repair pass with the generated bound k - (spix - m)) *)
+Theorem C18_kernel_bins_cover_once_monotone : forall (T : Type) (O : ops T) (ok : T -> Prop),
+  (forall x y, ok x -> ok y -> o_leb O x y = true \/ o_leb O y x = true) ->
+  (forall x y z, ok x -> ok y -> ok z -> o_leb O x y = true -> o_leb O y z = true -> o_leb O x z = true) ->
+  forall (chrs : list (list T)) (nblk : list nat),
+  Forall (fun n => 1 <= n) nblk -> Forall (chrom_ok O ok) chrs -> Forall2 (bounds_ok O ok) nblk chrs ->
+  exists labs : list (list nat),
+    g_haplobin O nblk (concat chrs) (starts_from 0 (map (@length T) chrs)) (stops_from 0 (map (@length T) chrs)) = map Some (concat labs)
+    /\ Forall2 (fun c l => length l = length c) chrs labs
+    /\ (forall c l, nth_error labs c = Some l -> Forall (fun j => offset nblk c <= j < offset nblk (S c)) l)
+    /\ StronglySorted Nat.le (concat labs)
+    /\ (Forall2 (fun n c => n <= length c) nblk chrs -> forall j, j < list_sum nblk -> In j (concat labs)).
+Proof. exact @kernel_haplobin_spec. Qed.
+Print Assumptions C18_kernel_bins_cover_once_monotone.
+
+(** the generated haplobin_bounds is a run-length encoding *)
+Theorem C18_kernel_bounds_partition : forall lab : list nat, lab <> [] ->
+  exists hst hsp hlen vals, g_haplobin_bounds lab = Ok (hst, hsp, hlen) /\ length hst = length hsp /\ length vals = length hst
+    /\ chain 0 (combine hst hsp) (length lab) /\ hlen = map2 Nat.sub hsp hst
+    /\ decode (combine hst hsp) vals = lab /\ adjacent_differ vals.
+Proof. exact kernel_bounds_partition. Qed.
+Print Assumptions C18_kernel_bounds_partition.
+
+(** conservation, exactly nhaploblk blocks, every entry written — for each of the FOUR builders as generated
+    (haplo.haplomat and the _calc_haplomat of the OHV, OPV and genotype-builder problems; [conservation_of] is the statement of
+    C18_haplomat_conservation with the builder as a parameter) *)
+Theorem C18_kernel_haplomat_conservation : forall (T : Type) (O : ops T),
+  conservation_of O (g_haplomat O) /\ conservation_of O (g_ohv_calc_haplomat O)
+  /\ conservation_of O (g_opv_calc_haplomat O) /\ conservation_of O (g_gb_calc_haplomat O).
+Proof. exact @kernel_haplomat_conservation. Qed.
+Print Assumptions C18_kernel_haplomat_conservation.
+
+(** the OHV problem as generated (haplotype matrix -> k_xmap -> scaling by k_ohv_Subset_ploidy = number of phases): every entry
+    is defined and is at least ploidy * (value of any block-boundary recombinant of the cross's parents) *)
+Theorem C18_kernel_ohv_problem : forall (T : Type) (O : ops T) (chrs : list (list T)) (e1 e2 : err) (nhap : nat)
+    (geno : list (list (list Z))) (u : list (list Q)) (nt : nat) (hm : hmat_t) (ntaxa nparent : nat) (uniq : bool),
+  chrs <> [] -> Forall (fun c => c <> []) chrs ->
+  g_ohv_calc_haplomat O e1 e2 nhap geno (concat chrs) (starts_from 0 (map (@length T) chrs)) (stops_from 0 (map (@length T) chrs))
+                (map (@length T) chrs) u nt = Ok hm ->
+  geno <> [] -> Forall (fun phm => length phm = ntaxa /\ Forall (fun g => length g = length (concat chrs)) phm) geno ->
+  length u = length (concat chrs) -> 1 <= nparent ->
+  exists bounds, calc_bounds O nhap (concat chrs) (starts_from 0 (map (@length T) chrs)) (stops_from 0 (map (@length T) chrs)) = Some bounds
+    /\ length bounds = nhap /\ chain 0 bounds (length (concat chrs))
+    /\ forall s xc t, nth_error (k_xmap ntaxa nparent uniq) s = Some xc -> t < nt ->
+  exists V, nth_error (g_ohv_problem nhap nt hm ntaxa nparent uniq) s = Some (g_ohv_row (Z.of_nat (length geno)) nhap nt (cands hm xc))
+    /\ nth t (g_ohv_row (Z.of_nat (length geno)) nhap nt (cands hm xc)) None = Some V
+    /\ forall src : nat -> list Z, (forall b, b < nhap -> In (src b) (copies geno xc)) ->
+         (inject_Z (Z.of_nat (length geno)) * dotZQ (recomb src 0 bounds) (col 0%Q t u) <= V)%Q.
+Proof. exact @kernel_ohv_problem. Qed.
+Print Assumptions C18_kernel_ohv_problem.
+
+(** the latent functions as generated have the exact values the correspondence compares them with: minus the mean OHV of the
+    selected crosses, minus the contribution-weighted mean (three classes), minus ploidy * best-sum (OPV = - OHV scaling), and
+    -(ploidy/nbestfndr) * top-sum with the top nbestfndr founders taken from index k - nbestfndr on *)
+Theorem C18_kernel_latent_values :
+  (forall n s : Q, ~ (n == 0)%Q -> (k_ohv_latent n s == - (s / n))%Q) /\
+  (forall (tot : Q) (w rows : list Q), ~ (tot == 0)%Q ->
+     (k_ohvw_Real_latent (sumQ (map2 (fun wi r => k_ohvw_Real_contrib tot wi * r) w rows)) == - (sumQ (map2 Qmult w rows) / tot)
+      /\ k_ohvw_Integer_latent (sumQ (map2 (fun wi r => k_ohvw_Integer_contrib tot wi * r) w rows)) == - (sumQ (map2 Qmult w rows) / tot)
+      /\ k_ohvw_Binary_latent (sumQ (map2 (fun wi r => k_ohvw_Binary_contrib tot wi * r) w rows)) == - (sumQ (map2 Qmult w rows) / tot))%Q) /\
+  (forall p s : Q, (k_opv_latent p s == - (k_ohv_scale p s))%Q) /\
+  (forall p n s : Q, (k_gb_latent p n s == - ((p / n) * s))%Q) /\
+  (forall k nbest : nat, k_gb_st k nbest + Nat.min nbest k = k).
+Proof. exact (conj k_ohv_latent_model (conj k_ohvw_latent_model (conj k_opv_latent_model (conj k_gb_latent_model k_gb_st_model)))). Qed.
+Print Assumptions C18_kernel_latent_values.
+
+(** non-vacuity of the kernel theorems: the generated code runs on a concrete two-chromosome layout (4 blocks over 3 + 2 markers) *)
+Example C18_kernel_hyps_satisfiable :
+  g_nhaploblk_chrom qops 4 [0; 1#2; 1; 3; 4]%Q [0; 3] [3; 5] = Ok [2; 2]
+  /\ g_haplobin qops [2; 2] [0; 1#2; 1; 3; 4]%Q [0; 3] [3; 5] = [Some 0; Some 1; Some 1; Some 2; Some 3]
+  /\ g_haplobin_bounds [0; 1; 1; 2; 3] = Ok ([0; 1; 3; 4], [1; 3; 4; 5], [1; 2; 1; 1])
+  /\ (exists hm, g_ohv_calc_haplomat qops EValue EValue 4 [[[1; 0; 1; 1; 0]; [0; 1; 1; 0; 1]]]%Z [0; 1#2; 1; 3; 4]%Q [0; 3] [3; 5] [3; 2]
+                   [[1]; [2]; [-1]; [1#2]; [4]]%Q 1 = Ok hm
+                 /\ g_ohv_problem 4 1 hm 2 2 true = [[Some (13#2)]]%Q)
+  /\ ~ (inject_Z 2 == 0)%Q.
+Proof. repeat split; try (vm_compute; reflexivity). - eexists. split; vm_compute; reflexivity. - discriminate. Qed.
+
+(** ** Scale covariance (exact arithmetic).  Under every positive affine map x |-> c*x + d of the genetic positions (another unit,
+    another origin) the apportionment, the block labels, the block boundaries and the whole haplotype matrix — hence every OHV / OPV /
+    genotype-builder value — are unchanged, for all layouts whose chromosome indices address existing markers.  (For binary64 the
+    correspondence exercises the same law with powers of two from 2^-40 to 2^20, where scaling commutes with every operation.) *)
+Theorem C18_affine_invariance : forall (c d : Q), (0 < c)%Q ->
+  forall (e1 e2 : err) (nhap : nat) (nblk : list nat) (geno : list (list (list Z))) (gp : list Q) (stix spix clen : list nat) (u : list (list Q)) (nt : nat),
+  Forall (fun st => st < length gp) stix -> Forall (fun sp => 1 <= sp <= length gp) spix ->
+  nhaploblk_chrom qops nhap (map (aff c d) gp) stix spix = nhaploblk_chrom qops nhap gp stix spix
+  /\ haplobin qops nblk (map (aff c d) gp) stix spix = haplobin qops nblk gp stix spix
+  /\ calc_bounds qops nhap (map (aff c d) gp) stix spix = calc_bounds qops nhap gp stix spix
+  /\ calc_haplomat qops e1 e2 nhap geno (map (aff c d) gp) stix spix clen u nt = calc_haplomat qops e1 e2 nhap geno gp stix spix clen u nt.
+Proof.
+  intros c d Hc e1 e2 nhap nblk geno gp stix spix clen u nt H1 H2.
+  exact (conj (nhaploblk_chrom_aff c d Hc nhap gp stix spix H1 H2)
+        (conj (haplobin_aff c d Hc nblk gp stix spix (in_range_combine (length gp) nblk stix spix H1 H2))
+        (conj (proj2 (calc_haplomat_aff c d Hc e1 e2 nhap geno gp stix spix clen u nt H1 H2))
+              (proj1 (calc_haplomat_aff c d Hc e1 e2 nhap geno gp stix spix clen u nt H1 H2))))).
+Qed.
+Print Assumptions C18_affine_invariance.
+
+(** block values are linear in the marker effects: scaling every effect by s scales every block value by s *)
+Theorem C18_block_value_scales : forall (s : Q) (g : list Z) (ucol : list Q) (st sp : nat),
+  (block_val g (map (Qmult s) ucol) st sp == s * block_val g ucol st sp)%Q.
+Proof. exact block_val_scale. Qed.
+Print Assumptions C18_block_value_scales.
+
+Example C18_affine_hyps_satisfiable :
+  (0 < 1 # 1024)%Q /\ Forall (fun st => st < length [0; 1#2; 1; 3; 4]%Q) [0; 3] /\ Forall (fun sp => 1 <= sp <= length [0; 1#2; 1; 3; 4]%Q) [3; 5]
+  /\ haplobin qops [2; 2] (map (aff (1 # 1024) 7) [0; 1#2; 1; 3; 4]%Q) [0; 3] [3; 5] = [Some 0; Some 1; Some 1; Some 2; Some 3].
+Proof. split; [reflexivity|]. split; [repeat constructor|]. split; [repeat constructor|]. vm_compute. reflexivity. Qed.
 
 (** non-vacuity: a concrete layout meets the hypotheses of the theorems above *)
 Example C18_hyps_satisfiable :
